@@ -148,8 +148,86 @@ func ctreeHistory(w *trace.Writer, seed int64) bool {
 	return false
 }
 
+// ctreeContend hammers a few hot leaves with queriers, walkers, handle updaters, adders on existing
+// paths and a deleter/re-adder for dur, and reports whether every goroutine kept making progress.
+func ctreeContend(w *trace.Writer, seed int64, dur time.Duration) bool {
+	w.Emit(trace.E{"ev": "reset"})
+	t := &ctree.Tree{}
+	hot := [][]string{{"a", "b"}, {"a", "c"}, {"d"}}
+	for _, p := range hot {
+		t.Add(p, "v0")
+	}
+	t.Add([]string{"e", "f"}, "v0")
+	const workers = 10
+	var ops [workers]int64
+	stop := make(chan struct{})
+	var wg sync.WaitGroup
+	for g := 0; g < workers; g++ {
+		wg.Add(1)
+		go func(g int) {
+			defer wg.Done()
+			r := rand.New(rand.NewSource(seed + int64(g)))
+			handles := map[int]*ctree.Leaf{}
+			for {
+				select {
+				case <-stop:
+					return
+				default:
+				}
+				k := r.Intn(len(hot))
+				switch g % 5 {
+				case 0: // query (exact and glob), reading the values it is handed
+					q := hot[k]
+					if r.Intn(2) == 0 {
+						q = []string{"*"}
+					}
+					t.Query(q, func(_ []string, l *ctree.Leaf, v interface{}) error { _ = v; return nil })
+				case 1:
+					t.Walk(func(_ []string, l *ctree.Leaf, v interface{}) error { _ = v; return nil })
+				case 2: // update through a retained handle
+					if handles[k] == nil {
+						handles[k] = t.GetLeaf(hot[k])
+					}
+					if handles[k] != nil {
+						handles[k].Update("h")
+					}
+				case 3: // add on an existing path
+					t.Add(hot[k], "a")
+				case 4: // delete and re-add elsewhere, sometimes a hot leaf
+					if r.Intn(8) == 0 {
+						t.Delete(hot[k])
+						t.Add(hot[k], "r")
+					} else {
+						t.Delete([]string{"e"})
+						t.Add([]string{"e", "f"}, "r")
+					}
+				}
+				atomic.AddInt64(&ops[g], 1)
+			}
+		}(g)
+	}
+	time.Sleep(dur)
+	close(stop)
+	var total int64
+	for g := range ops {
+		total += atomic.LoadInt64(&ops[g])
+	}
+	joined := make(chan struct{})
+	go func() { wg.Wait(); close(joined) }()
+	select {
+	case <-joined:
+	case <-time.After(5 * time.Second):
+		// every operation takes microseconds: a goroutine that has not come back is stuck inside the tree
+		w.Emit(trace.E{"ev": "hang", "what": "a goroutine did not return from a tree operation for 5 s under contention (deadlock?)", "ops": total})
+		return true
+	}
+	w.Emit(trace.E{"ev": "contend", "ops": total, "progress": true, "workers": workers})
+	return false
+}
+
 func ctreeConc(args []string) error {
 	fs := flag.NewFlagSet("ctree conc", flag.ContinueOnError)
+	contend := fs.Int("contend", 0, "contention rounds (150 ms each) after the histories")
 	n := fs.Int("n", 300, "histories")
 	out := fs.String("out", "", "output directory")
 	shards := fs.Int("shards", 16, "trace files")
@@ -177,7 +255,13 @@ func ctreeConc(args []string) error {
 		}(s)
 	}
 	wg.Wait()
+	atomic.StoreInt32(&ctreeDelay, 0)
+	for i := 0; i < *contend && hangs == 0; i++ {
+		if ctreeContend(ss.ws[i%len(ss.ws)], seed*31+int64(i), 150*time.Millisecond) {
+			hangs++
+		}
+	}
 	ev := ss.close()
-	fmt.Printf("DRV ctree conc histories=%d events=%d hangs=%d\n", *n, ev, hangs)
+	fmt.Printf("DRV ctree conc histories=%d contention_rounds=%d events=%d hangs=%d\n", *n, *contend, ev, hangs)
 	return nil
 }
